@@ -21,6 +21,11 @@ pub fn core_ops() -> Vec<OpK> {
     vec![OpK::Add, OpK::Mul, OpK::Neg, OpK::Scale(3.0)]
 }
 
+/// an alphabet in which whole adjoints become exactly zero (dead branches)
+pub fn zero_ops() -> Vec<OpK> {
+    vec![OpK::Add, OpK::Mul, OpK::Scale(0.0), OpK::Relu]
+}
+
 pub fn full_ops() -> Vec<OpK> {
     vec![
         OpK::Add,
@@ -52,11 +57,13 @@ pub fn spaces(tier: Tier, var: u64) -> Vec<Space> {
         Tier::Quick => vec![
             Space { name: "same-shape/core", leaves: same_shape_pool(var), ops: core_ops(), max_nodes: 3, masks: None },
             Space { name: "broadcast/full", leaves: broadcast_pool(var), ops: full_ops(), max_nodes: 2, masks: Some(vec![0b1111, 0b0001, 0b0110, 0b1010, 0b0101]) },
+            Space { name: "same-shape/zero", leaves: same_shape_pool(var), ops: zero_ops(), max_nodes: 3, masks: Some(vec![0b111, 0b011, 0b101]) },
         ],
         Tier::Thorough => vec![
             Space { name: "same-shape/core", leaves: same_shape_pool(var), ops: core_ops(), max_nodes: 4, masks: Some(vec![0b111, 0b011, 0b101, 0b110, 0b001]) },
             Space { name: "same-shape/core3", leaves: same_shape_pool(var), ops: core_ops(), max_nodes: 3, masks: None },
             Space { name: "broadcast/full", leaves: broadcast_pool(var), ops: full_ops(), max_nodes: 2, masks: None },
+            Space { name: "same-shape/zero", leaves: same_shape_pool(var), ops: zero_ops(), max_nodes: 3, masks: None },
         ],
     }
 }
@@ -84,8 +91,12 @@ pub fn explore_space(opts: &Opts, sp: &Space, total: &mut Local, stats_out: &mut
                         Ok(b) => b[root].len(),
                         Err(_) => continue,
                     };
-                    for seeded in [false, true] {
-                        let seed = if seeded { Some(seed_vals(out_n, opts.seed)) } else { None };
+                    for seeded in 0..3u8 {
+                        let seed = match seeded {
+                            0 => None,
+                            1 => Some(seed_vals(out_n, opts.seed)),
+                            _ => Some(vec![0.0; out_n]),
+                        };
                         let passes = vec![Pass { root, seed }];
                         let case = || format!("{} mask={:0w$b} {}", p.describe(), m, describe_passes(&passes), w = nl).replace(' ', "");
                         if !l.want(&case) {
@@ -120,7 +131,7 @@ pub fn explore(opts: &Opts) -> Explored {
     }
     Explored {
         local: total,
-        bounds: json!({"spaces": stats, "roots": "every operation node", "seeds": ["ones (omitted)", "generic"]}),
+        bounds: json!({"spaces": stats, "roots": "every operation node", "seeds": ["ones (omitted)", "generic", "all zeros"]}),
         rule: "every expression DAG with at most n operation nodes over the alphabet (operands range over all existing values: sharing, diamonds, self-products, fan-out) x tracking masks of the leaves x every op node as root x {no seed, generic seed}; values, gradient presence, gradient dimensions and gradient values of every leaf and every op node against the forward-mode reference".into(),
         exhaustive: true,
         assumptions: vec![
